@@ -5,6 +5,12 @@ go 1.25.6
 require github.com/bufbuild/protocompile v0.0.0
 
 require (
+	github.com/rivo/uniseg v0.4.7 // indirect
+	github.com/tidwall/btree v1.8.1 // indirect
+	golang.org/x/exp v0.0.0-20250911091902-df9299821621 // indirect
+)
+
+require (
 	golang.org/x/sync v0.20.0 // indirect
 	google.golang.org/protobuf v1.36.11
 )
